@@ -6,12 +6,54 @@
         /// record, or (Err(MissingBinding), Type::Undefined)
         #[verifier::external_body] pub fn as_tuple(&self) -> (r: (SymbolIdResult, Type)) ensures r == self.tuple() { unimplemented!() }
     }
+    /// one scope: name -> (id, type of the symbol)   (the stack-of-maps view PROVED in unit SYM,
+    /// with the symbol's type looked up in the store)
+    pub type Scope = Map<Seq<char>, (SymbolId, Type)>;
+    /// one step of the analysis as far as the symbol table is concerned
+    pub enum Ev { Lookup(Seq<char>), Bind(Seq<char>, Type), Enter(ScopeType), Exit }
+    /// innermost-first resolution over a stack of scopes (same definition as unit SYM)
+    pub open spec fn resolve_in(st: Seq<Scope>, name: Seq<char>) -> Option<(SymbolId, Type)>
+        decreases st.len()
+    {
+        if st.len() == 0 { None }
+        else if st.last().contains_key(name) { Some(st.last()[name]) }
+        else { resolve_in(st.drop_last(), name) }
+    }
+    /// the innermost scope gains exactly one binding
+    pub open spec fn bind_in(st: Seq<Scope>, name: Seq<char>, v: (SymbolId, Type)) -> Seq<Scope> {
+        st.update(st.len() - 1, st.last().insert(name, v))
+    }
     #[verifier::external_body] pub struct SymbolTable { _p: u8 }
     impl SymbolTable {
-        pub uninterp spec fn global(&self) -> bool;
-        pub uninterp spec fn scope_type(&self) -> ScopeType;
-        #[verifier::external_body] pub fn in_global_scope(&self) -> (r: bool) ensures r == self.global() { unimplemented!() }
-        #[verifier::external_body] pub fn current_scope_type(&self) -> (r: ScopeType) ensures r == self.scope_type() { unimplemented!() }
+        pub uninterp spec fn scopes(&self) -> Seq<Scope>;
+        pub uninterp spec fn scope_types(&self) -> Seq<ScopeType>;
+        /// order of symbol-table events (C07)
+        pub uninterp spec fn trace(&self) -> Seq<Ev>;
+        /// representation invariant as far as this unit needs it (unit SYM: wf): the global scope
+        /// is always open and it is the only one of type Global
+        pub open spec fn wf(&self) -> bool {
+            &&& self.scopes().len() >= 1
+            &&& self.scope_types().len() == self.scopes().len()
+            &&& forall|i: int| 0 <= i < self.scope_types().len() ==> ((#[trigger] self.scope_types()[i] == ScopeType::Global) <==> i == 0)
+        }
+        pub open spec fn global(&self) -> bool { self.scopes().len() == 1 }
+        pub open spec fn scope_type(&self) -> ScopeType { self.scope_types().last() }
+        /// unit SYM: in_global_scope / current_scope_type
+        #[verifier::external_body] pub fn in_global_scope(&self) -> (r: bool) requires self.wf(), ensures r == self.global() { unimplemented!() }
+        #[verifier::external_body] pub fn current_scope_type(&self) -> (r: ScopeType) requires self.wf(), ensures r == self.scope_type() { unimplemented!() }
+        /// unit SYM: enter_scope (the body panics on ScopeType::Global)
+        #[verifier::external_body] pub fn enter_scope(&mut self, scope_type: ScopeType)
+            requires old(self).wf(), scope_type != ScopeType::Global,
+            ensures final(self).scopes() == old(self).scopes().push(Map::<Seq<char>, (SymbolId, Type)>::empty()),
+                final(self).scope_types() == old(self).scope_types().push(scope_type),
+                final(self).trace() == old(self).trace().push(Ev::Enter(scope_type)), final(self).wf(),
+        { unimplemented!() }
+        /// unit SYM: exit_scope (the body asserts that the global scope is never closed)
+        #[verifier::external_body] pub fn exit_scope(&mut self)
+            requires old(self).wf(), old(self).scopes().len() > 1,
+            ensures final(self).scopes() == old(self).scopes().drop_last(), final(self).scope_types() == old(self).scope_types().drop_last(),
+                final(self).trace() == old(self).trace().push(Ev::Exit), final(self).wf(),
+        { unimplemented!() }
     }
 }
 pub mod context {
@@ -21,44 +63,53 @@ pub mod context {
     use super::types::Type;
     use super::asg;
     use super::synast::AstNode;
-    #[verifier::external_body] pub struct Context { _p: u8 }
-    /// one step of the analysis as far as the symbol table is concerned
-    pub enum Ev { Lookup(Seq<char>), Bind(Seq<char>, Type) }
+    pub use super::symbols::Ev;
+    /// everything of the analyser context except the symbol table (program, diagnostics, const values, annotations)
+    #[verifier::external_body] pub struct ContextRest { _p: u8 }
+    impl ContextRest {
+        pub uninterp spec fn errs(&self) -> Seq<SemanticErrorKind>;
+        pub uninterp spec fn const_value(&self, id: SymbolId) -> Option<asg::TExpr>;
+    }
+    /// `symbol_table` is the real field name (the `with_scope!` macro of context.rs reaches it directly)
+    pub struct Context { pub symbol_table: SymbolTable, pub rest: ContextRest }
     impl Context {
         /// kinds of the semantic diagnostics recorded so far, in order
-        pub uninterp spec fn errs(&self) -> Seq<SemanticErrorKind>;
+        pub open spec fn errs(&self) -> Seq<SemanticErrorKind> { self.rest.errs() }
+        pub open spec fn scopes(&self) -> Seq<Scope> { self.symbol_table.scopes() }
         /// what the name resolves to now (innermost-first; SYM unit): id and type
-        pub uninterp spec fn resolve(&self, name: Seq<char>) -> Option<(SymbolId, Type)>;
+        pub open spec fn resolve(&self, name: Seq<char>) -> Option<(SymbolId, Type)> { resolve_in(self.symbol_table.scopes(), name) }
         /// names bound in the current (innermost) scope
-        pub uninterp spec fn in_current_scope(&self, name: Seq<char>) -> bool;
-        pub uninterp spec fn global(&self) -> bool;
-        pub uninterp spec fn const_value(&self, id: SymbolId) -> Option<asg::TExpr>;
+        pub open spec fn in_current_scope(&self, name: Seq<char>) -> bool { self.symbol_table.scopes().last().contains_key(name) }
+        pub open spec fn global(&self) -> bool { self.symbol_table.global() }
+        pub open spec fn const_value(&self, id: SymbolId) -> Option<asg::TExpr> { self.rest.const_value(id) }
         /// order of symbol-table events (C07: an initializer is analysed before its name is bound)
-        pub uninterp spec fn trace(&self) -> Seq<Ev>;
+        pub open spec fn trace(&self) -> Seq<Ev> { self.symbol_table.trace() }
+        pub open spec fn wf(&self) -> bool { self.symbol_table.wf() }
 
         #[verifier::external_body] pub fn insert_error<T: AstNode>(&mut self, error_kind: SemanticErrorKind, node: &T)
             ensures final(self).errs() == old(self).errs().push(error_kind), final(self).same_tables(old(self))
         { unimplemented!() }
         pub open spec fn same_tables(&self, o: &Context) -> bool {
-            &&& forall|n: Seq<char>| self.resolve(n) == o.resolve(n)
-            &&& forall|n: Seq<char>| self.in_current_scope(n) == o.in_current_scope(n)
-            &&& self.global() == o.global()
+            &&& self.symbol_table == o.symbol_table
             &&& forall|i: SymbolId| self.const_value(i) == o.const_value(i)
-            &&& self.trace() == o.trace()
         }
+        /// context.rs: `self.annotations.push(annotation)`
+        #[verifier::external_body] pub fn push_annotation(&mut self, annotation: asg::Annotation)
+            ensures final(self).errs() == old(self).errs(), final(self).same_tables(old(self))
+        { unimplemented!() }
         #[verifier::external_body] pub fn symbol_table(&self) -> (r: &SymbolTable)
-            ensures r.global() == self.global(), (r.scope_type() == ScopeType::Global) == self.global()
+            ensures *r == self.symbol_table
         { unimplemented!() }
         #[verifier::external_body] pub fn get_const_value(&self, id: SymbolId) -> (r: Option<&asg::TExpr>)
             ensures (r is Some) == (self.const_value(id) is Some), r is Some ==> *r->Some_0 == self.const_value(id)->Some_0
         { unimplemented!() }
         #[verifier::external_body] pub fn insert_const_value(&mut self, id: SymbolId, value: asg::TExpr)
             ensures final(self).errs() == old(self).errs(), final(self).const_value(id) == Some(value),
-                forall|n: Seq<char>| final(self).resolve(n) == old(self).resolve(n), final(self).global() == old(self).global(),
-                final(self).trace() == old(self).trace(),
+                final(self).symbol_table == old(self).symbol_table,
         { unimplemented!() }
         /// SYM unit (Context::lookup_symbol + lookup + as_tuple): exactly one UndefVarError iff unresolved
         #[verifier::external_body] pub fn lookup_symbol<T: AstNode>(&mut self, name: &str, node: &T) -> (r: SymbolRecordResult)
+            requires old(self).wf(),
             ensures
                 final(self).same_tables_but_trace(old(self)), final(self).trace() == old(self).trace().push(Ev::Lookup(name@)),
                 old(self).resolve(name@) is Some ==> final(self).errs() == old(self).errs()
@@ -67,6 +118,7 @@ pub mod context {
                     && r.tuple() == (Err::<SymbolId, SymbolError>(SymbolError::MissingBinding), Type::Undefined),
         { unimplemented!() }
         #[verifier::external_body] pub fn lookup_gate_symbol<T: AstNode>(&mut self, name: &str, node: &T) -> (r: SymbolRecordResult)
+            requires old(self).wf(),
             ensures
                 final(self).same_tables_but_trace(old(self)), final(self).trace() == old(self).trace().push(Ev::Lookup(name@)),
                 old(self).resolve(name@) is Some ==> final(self).errs() == old(self).errs()
@@ -75,22 +127,23 @@ pub mod context {
                     && r.tuple() == (Err::<SymbolId, SymbolError>(SymbolError::MissingBinding), Type::Undefined),
         { unimplemented!() }
         pub open spec fn same_tables_but_trace(&self, o: &Context) -> bool {
-            &&& forall|n: Seq<char>| self.resolve(n) == o.resolve(n)
-            &&& forall|n: Seq<char>| self.in_current_scope(n) == o.in_current_scope(n)
-            &&& self.global() == o.global()
+            &&& self.symbol_table.scopes() == o.symbol_table.scopes()
+            &&& self.symbol_table.scope_types() == o.symbol_table.scope_types()
             &&& forall|i: SymbolId| self.const_value(i) == o.const_value(i)
         }
-        /// SYM unit (Context::new_binding): one RedeclarationError iff the name is in the current scope
+        /// SYM unit (Context::new_binding): one RedeclarationError iff the name is in the current scope,
+        /// and then nothing is bound; otherwise exactly the innermost scope gains exactly this binding
         #[verifier::external_body] pub fn new_binding<T: AstNode>(&mut self, name: &str, typ: &Type, node: &T) -> (r: SymbolIdResult)
+            requires old(self).wf(),
             ensures
-                final(self).trace() == old(self).trace().push(Ev::Bind(name@, *typ)), final(self).global() == old(self).global(),
+                final(self).trace() == old(self).trace().push(Ev::Bind(name@, *typ)),
+                final(self).symbol_table.scope_types() == old(self).symbol_table.scope_types(),
                 forall|i: SymbolId| final(self).const_value(i) == old(self).const_value(i),
                 old(self).in_current_scope(name@) ==> r is Err && final(self).errs().len() == old(self).errs().len() + 1
                     && final(self).errs().drop_last() == old(self).errs() && final(self).errs().last() is RedeclarationError
-                    && (forall|n: Seq<char>| final(self).resolve(n) == old(self).resolve(n)),
+                    && final(self).scopes() == old(self).scopes(),
                 !old(self).in_current_scope(name@) ==> r is Ok && final(self).errs() == old(self).errs()
-                    && final(self).resolve(name@) == Some((r->Ok_0, *typ))
-                    && (forall|n: Seq<char>| n != name@ ==> final(self).resolve(n) == old(self).resolve(n)),
+                    && final(self).scopes() == bind_in(old(self).scopes(), name@, (r->Ok_0, *typ)),
         { unimplemented!() }
     }
 }
